@@ -587,6 +587,11 @@ def obligations(tier, seed):
     # holder just wrote -- and not the timestamp the waiter read before it waited -- is the C13 re-check obligation
     from engine.e1 import spec as e1_spec
     specs.append(e1_spec('props.C13_expiry', 'Recheck', 'stale-tile/recheck-under-the-lock-uses-the-current-timestamp', cfg={}, cost=3))
+    # files written without a tile lock (the shared single-colour file of a file cache is written by requests for different meta
+    # tiles): concurrent writers of one target never share their temporary file
+    specs.append(e1_spec('props.C09_paths', 'AtomicWriteTempNames', 'unlocked-writers/temporary-files-of-two-writers-differ', cfg={}, cost=2))
+    specs.append(e1_spec('props.C09_paths', 'AtomicWriteTempNames', 'canary/temporary file named after the target only', kind='canary', cfg={}, cost=2,
+                         patches={'mapproxy.util.fs': [("path_tmp = filename + '.tmp-' + str(random.randint(0, 99999999))", "random.randint(0, 99999999); path_tmp = filename + '.tmp'")]}))
     specs.append(dict(name='twin/fetch-reachable', module=MOD, func='run_witness', kind='witness', args=dict(scenario=SCENARIOS['meta2x2/same-tile-x2']), cost=2))
     for label, scn, patches in (CANARIES if tier == 'thorough' else CANARIES[:3]):
         args = dict(scenario=SCENARIOS[scn], patches={m: [list(x) for x in lst] for m, lst in patches.items()})
